@@ -21,6 +21,8 @@ import (
 // refresh ticker and the wall clock.
 
 type verifLoopProvider struct {
+	hold bool          // calls wait at the gate (a slow provider)
+	gate chan struct{} // closed by the harness to let them through
 	outcomeSet []int
 	outcomes   [5]int // drawn before any goroutine starts, so that a native replay consumes the values in the same order
 	batch    int
@@ -35,6 +37,9 @@ func (p *verifLoopProvider) EstimatedTags() int     { return 0 }
 func (p *verifLoopProvider) Instance(ctx context.Context, ips ...gostatsd.Source) (map[gostatsd.Source]*gostatsd.Instance, error) {
 	p.calls++
 	verifAssume(p.calls <= 5)
+	if p.hold {
+		<-p.gate
+	}
 	if len(ips) > p.batch || len(ips) == 0 {
 		p.tooBig = true
 	}
@@ -84,7 +89,10 @@ func verifC12Loop(maxN int, outcomeSet []int) {
 	verifTimersManual()
 	now := verifT0
 	verifSetNow(&now)
-	mock := clock.NewMock(time.Unix(0, now))
+	// the mock clock (refresh ticker) starts at the wall clock's now: verifT0 symbolically, the
+	// real time natively, where handleInstanceInfo stamps entries with the real time.Now()
+	t0 := time.Now().UnixNano()
+	mock := clock.NewMock(time.Unix(0, t0))
 	ctx, cancel := context.WithCancel(clock.Context(context.Background(), mock))
 	defer cancel()
 	p := &verifLoopProvider{batch: nondetIntIn(1, 2), asked: map[gostatsd.Source]int{}, outcomeSet: outcomeSet}
@@ -181,7 +189,7 @@ func verifC12Loop(maxN int, outcomeSet []int) {
 			}
 			// (natively the wall clock is the real one while the ticker's is the mock's: the
 			// expectations are computed from the entry itself so that they hold in both worlds)
-			tick := verifT0 + int64(time.Minute)
+			tick := t0 + int64(time.Minute)
 			if tick-h.lastAccessNano > int64(opts.CacheEvictAfterIdlePeriod) {
 				evicted[ip] = true
 			} else if tick > h.expires.UnixNano() {
@@ -238,4 +246,70 @@ func verifC12Loop(maxN int, outcomeSet []int) {
 func VerifC12_LoopTwin() {
 	verifC12Loop(1, []int{0, 3})
 	verifAssert(false, "twin-false")
+}
+
+
+// VerifC12_LoopBusy: a refresh tick arrives while the queries started by the previous tick are
+// still on their way (the provider is slow: its calls wait at a gate). Two cached sources, TTLs
+// of 30 s, idle period 90 s, refresh period 1 min: at the first tick both entries are past their
+// TTL and are queried again, at the second tick (provider still busy) both have been unused for
+// longer than the idle period and must be gone from the cache at once; when the provider
+// finally answers, each query is answered exactly once.
+func VerifC12_LoopBusy() {
+	verifTimersManual()
+	now := verifT0
+	verifSetNow(&now)
+	mock := clock.NewMock(time.Unix(0, time.Now().UnixNano())) // see verifC12Loop
+	ctx, cancel := context.WithCancel(clock.Context(context.Background(), mock))
+	defer cancel()
+	p := &verifLoopProvider{batch: nondetIntIn(1, 2), asked: map[gostatsd.Source]int{}, outcomeSet: []int{0, 2, 3}, gate: make(chan struct{})}
+	for i := range p.outcomes {
+		p.outcomes[i] = nondetIntIn(0, 2)
+	}
+	opts := gostatsd.CacheOptions{CacheRefreshPeriod: time.Minute, CacheEvictAfterIdlePeriod: 90 * time.Second, CacheTTL: 30 * time.Second, CacheNegativeTTL: 30 * time.Second}
+	ccp := NewCachedCloudProvider(logrus.StandardLogger(), rate.NewLimiter(rate.Inf, 1), p, opts)
+	go ccp.Run(ctx)
+	verifSettle()
+	for _, ip := range verifIPs {
+		ccp.IpSink() <- ip
+		verifSettle()
+		verifAdvanceTime()
+		verifSettle()
+	}
+	for k := 0; k < 2; k++ {
+		<-ccp.InfoSource()
+		verifSettle()
+	}
+	verifAssert(len(ccp.cache) == 2, "both sources are cached after their first answers")
+	// first tick: both entries are past their TTL, the provider becomes slow
+	p.hold = true
+	now += int64(time.Minute)
+	mock.Add(time.Minute)
+	verifSettle()
+	verifAdvanceTime()
+	verifSettle()
+	verifAssert(len(ccp.cache) == 2, "an entry unused for less than the idle period stays cached at a refresh tick")
+	// second tick, queries of the first one still under way
+	now += int64(time.Minute)
+	mock.Add(time.Minute)
+	verifSettle()
+	verifAssert(len(ccp.cache) == 0, "entries unused for longer than the idle period are evicted at the next refresh tick, also while earlier refresh queries are still under way")
+	verifReach("evicted-while-busy")
+	// the provider answers at last
+	p.hold = false
+	close(p.gate)
+	verifSettle()
+	verifAdvanceTime()
+	verifSettle()
+	for k := 0; k < 2; k++ {
+		<-ccp.InfoSource()
+		verifSettle()
+		verifAdvanceTime()
+		verifSettle()
+	}
+	verifExpectNoAnswer(ccp, "more refresh answers than refresh queries")
+	for _, ip := range verifIPs {
+		verifAssert(p.asked[ip] == 2, "an entry past its TTL is queried again exactly once")
+	}
+	verifReach("busy-done")
 }
